@@ -15,6 +15,12 @@ use std::collections::BTreeMap;
 use std::sync::{Arc, Barrier, Mutex};
 
 pub fn image_of(parser: &CooklangParser, input: &str) -> String {
+    image_in_order(parser, input, false)
+}
+
+/// the same image whichever of the two entry points is called first
+pub fn image_in_order(parser: &CooklangParser, input: &str, metadata_first: bool) -> String {
+    let early = if metadata_first { Some(parser.parse_metadata(input)) } else { None };
     let r = parser.parse(input);
     let mut s = String::new();
     for d in r.report().iter() {
@@ -24,7 +30,10 @@ pub fn image_of(parser: &CooklangParser, input: &str) -> String {
     if let Some(o) = r.output() {
         s.push_str(&serde_json::to_string(o).unwrap_or_else(|e| format!("<unserializable: {e}>")));
     }
-    let m = parser.parse_metadata(input);
+    let m = match early {
+        Some(m) => m,
+        None => parser.parse_metadata(input),
+    };
     s.push_str("\nMETA\n");
     for d in m.report().iter() {
         s.push_str(&format!("{:?}|{:?}|{}|{:?}\n", d.severity, d.stage, d.message, d.labels));
@@ -33,6 +42,17 @@ pub fn image_of(parser: &CooklangParser, input: &str) -> String {
         s.push_str(&serde_json::to_string(o).unwrap_or_default());
     }
     s
+}
+
+/// A parser for configuration `ci` made the way an application would: through the convenience constructors where one
+/// exists for that configuration (they must mean the same as `new` with the same arguments).
+fn constructed(ci: usize, cfgs: &[(Extensions, Converter, &'static str)], how: usize) -> CooklangParser {
+    match (cfgs[ci].2, how % 3) {
+        ("all/bundled", 0) => CooklangParser::extended(),
+        ("all/bundled", 1) => CooklangParser::default(),
+        ("none/empty", 0) => CooklangParser::canonical(),
+        _ => CooklangParser::new(cfgs[ci].0, cfgs[ci].1.clone()),
+    }
 }
 
 /// parse options of a call: 0 none; 1 a metadata validator that drops every entry and disables the standard checks;
@@ -176,6 +196,9 @@ pub fn pool() -> Vec<String> {
         let (t, _, _) = crate::mon::c07::unmark(e.template);
         v.push(t);
     }
+    for s in ["---\ntime: 1 h 30 m\n---\nCook.\n", ">> prep time: 25 mins\n>> cook time: 2 hrs\nx", "---\nduration: 1 h 30 m\ntime: 90 mins\n---\n", ">> time: 3 m\nBoil."] {
+        v.push(s.to_string());
+    }
     for s in ["Heat the #&pan{} first.", "Use the #&pot{} and the @&flour{} again.", "Add @&flour{} to the #&bowl{}.", ">> [mode]: steps\nUse #pan and @salt here.\n", ">> [duplicate]: ref\n#&lid{} then ~&rest{5%min}"] {
         v.push(s.to_string());
     }
@@ -251,11 +274,98 @@ fn sequential(ctx: &mut Ctx, pool: &[String], log: &mut Log, calls: usize) {
         }
         if k % 50 == 0 {
             // a fresh parser must agree with the reused one
-            let (e, c, _) = &cfgs[ci];
-            let fresh = CooklangParser::new(*e, c.clone());
-            if let Ok(img) = crate::core::guarded(|| image_of(&fresh, &pool[i])) {
+            // (made through the convenience constructors where they exist, first used through either entry point)
+            let fresh = constructed(ci, &cfgs, k / 50);
+            let metadata_first = (k / 50) % 2 == 1;
+            if let Ok(img) = crate::core::guarded(|| image_in_order(&fresh, &pool[i], metadata_first)) {
                 log.record(i, ci, hash64(img.as_bytes()));
                 ctx.count("fresh_parser_comparisons");
+                if metadata_first {
+                    ctx.count("fresh_parser_first_used_for_metadata");
+                }
+            }
+        }
+        if k % 5 == 2 {
+            // the same buffer edited in place between two parses: same address, same length, other text. The result for the
+            // edited text must be the one a copy of it at another address gets.
+            let mut buf = pool[i].clone();
+            let edit = buf.char_indices().find_map(|(p, c)| match c {
+                '@' => Some((p, "#")),
+                '#' => Some((p, "@")),
+                '{' => Some((p, "(")),
+                '~' => Some((p, "a")),
+                '>' => Some((p, "x")),
+                '=' => Some((p, "e")),
+                _ => None,
+            });
+            if let Some((pos, with)) = edit {
+                let res = crate::core::guarded(|| {
+                    let _ = parser.parse(&buf);
+                    buf.replace_range(pos..pos + 1, with);
+                    let in_place = image_of(parser, &buf);
+                    let copy = format!("{}", buf.as_str());
+                    let elsewhere = image_of(parser, &copy);
+                    (in_place, elsewhere)
+                });
+                if let Ok((a, b)) = res {
+                    ctx.count("in_place_edits_compared");
+                    if a != b {
+                        let case = Case::new("history", buf.as_str(), cfgs[ci].0.bits(), cfgs[ci].2).with(json!({"edited_at": pos, "original": pool[i]}));
+                        ctx.violation(&case, "history", "result_depends_on_text_previously_at_the_same_address", format!("after parsing {:?} from a buffer and editing byte {pos} in place, the buffer parses differently from a copy of it", pool[i]));
+                    }
+                }
+            }
+        }
+        if k % 211 == 7 {
+            // a callback that panics (caught by the application) must leave the parser usable and unchanged
+            let before = crate::core::guarded(|| image_of(parser, &pool[i]));
+            let _ = crate::core::guarded(|| {
+                let o = cooklang::analysis::ParseOptions { recipe_ref_check: Some(Box::new(|_| panic!("application callback fails"))), metadata_validator: Some(Box::new(|_, _, _| panic!("application callback fails"))) };
+                parser.parse_with_options("---\ntitle: x\n---\nServe with @@tomato sauce{} and @./sides/rice{}.\n", o)
+            });
+            let after = crate::core::guarded(|| image_of(parser, &pool[i]));
+            let case = Case::new("history", pool[i].as_str(), cfgs[ci].0.bits(), cfgs[ci].2);
+            match (before, after) {
+                (Ok(a), Ok(b)) => {
+                    ctx.count("caught_callback_panics_followed_by_a_parse");
+                    if a != b {
+                        ctx.violation(&case, "history", "result_changed_after_a_callback_panicked", "the same parser gives another result after a parse during which an application callback panicked".into());
+                    }
+                }
+                (Ok(_), Err(p)) => ctx.violation(&case, "history", "parser_unusable_after_a_callback_panicked", format!("{} at {}", p.message, p.location)),
+                _ => {}
+            }
+        }
+        if k % 1499 == 3 {
+            // a callback that parses another recipe with the same parser (looking up the referenced recipe): the nested
+            // call has to return. Bounded progress: 120 s of wall clock for two parses of under 100 bytes.
+            let p2 = parser.clone();
+            let (tx, rx) = std::sync::mpsc::channel();
+            std::thread::spawn(move || {
+                let inner = &p2;
+                let o = cooklang::analysis::ParseOptions {
+                    recipe_ref_check: Some(Box::new(move |_| {
+                        let _ = inner.parse("Simmer the @tomatoes{400%g} for ~{20%min}.\n");
+                        cooklang::analysis::CheckResult::Ok
+                    })),
+                    metadata_validator: Some(Box::new(move |_, _, _| {
+                        let _ = inner.parse_metadata("---\nservings: 2\n---\n");
+                        cooklang::analysis::CheckResult::Ok
+                    })),
+                };
+                let r = p2.parse_with_options("---\ntitle: Pasta\n---\nServe the @@tomato sauce{} over the @pasta{400%g}.\n", o);
+                let _ = tx.send(r.is_valid());
+            });
+            match rx.recv_timeout(std::time::Duration::from_secs(120)) {
+                Ok(_) => ctx.count("nested_parses_from_callbacks_returned"),
+                Err(std::sync::mpsc::RecvTimeoutError::Timeout) => {
+                    let case = Case::new("history", "Serve the @@tomato sauce{} over the @pasta{400%g}.", cfgs[ci].0.bits(), cfgs[ci].2);
+                    ctx.violation(&case, "history", "nested_parse_from_callback_does_not_return", "a recipe_ref_check / metadata_validator callback that parses with the same parser did not return within 120 s".into());
+                }
+                Err(_) => {
+                    let case = Case::new("history", "Serve the @@tomato sauce{} over the @pasta{400%g}.", cfgs[ci].0.bits(), cfgs[ci].2);
+                    ctx.violation(&case, "history", "nested_parse_from_callback_panics", "the thread running a parse whose callbacks parse with the same parser died".into());
+                }
             }
         }
     }
